@@ -247,6 +247,15 @@ Definition decoder_step (t : table) (k : N) (ws : list bytes) : option (table * 
   | _ => None
   end.
 
+(* one write on the connection record with key k (what Socket.Write does; the verif hook
+   VerifCanary.Write calls State.write the same way): no state is consulted, a write of
+   length 0 still emits an (empty) PSH|ACK segment, a long one is NOT cut to any segment size *)
+Definition write_step (t : table) (k : N) (data : bytes) : option (table * out) :=
+  match find (fun oc => match oc with Some c => (c_key c =? k)%N | None => false end) t with
+  | Some (Some c) => let '(o, c1) := conn_write c data in Some (tput t c1, o)
+  | _ => None
+  end.
+
 (* ---- wire format of an emitted segment ---- *)
 Definition word_hi (v : Z) : N := Z.to_N ((v / 256) mod 256).
 Definition word_lo (v : Z) : N := Z.to_N (v mod 256).
